@@ -515,3 +515,112 @@ Lemma echo_reply_matches_proof v6 id seq data code :
 Proof.
   unfold responded_echo_request. cbn [m_body m_type m_v6]. rewrite N.eqb_refl. reflexivity.
 Qed.
+
+(* Destination Unreachable is parsed whatever its code is: the message keeps its type and code, its body is the
+   quoted datagram (what follows the 8-octet ICMP header), from which the answered request is then read *)
+Lemma v4_unreachable_any_code_proof :
+  V4_UNREACHABLE_ANY_CODE = true ->
+  forall code c1 c2 u1 u2 u3 u4 quoted,
+    ICMP_V4_MIN_MATCHING_DATA_SIZE <= lenN quoted ->
+    v4_deserialize (V4_DESTINATION_UNREACHABLE :: code :: c1 :: c2 :: u1 :: u2 :: u3 :: u4 :: quoted)
+    = Ok {| m_v6 := false; m_type := V4_DESTINATION_UNREACHABLE; m_code := code; m_body := BData quoted |}.
+Proof.
+  intros Hflag code c1 c2 u1 u2 u3 u4 quoted Hlen. unfold v4_deserialize.
+  replace ((V4_DESTINATION_UNREACHABLE =? V4_ECHO_REPLY) || (V4_DESTINATION_UNREACHABLE =? V4_ECHO)) with false
+    by reflexivity.
+  rewrite N.eqb_refl. unfold deserialize_packet.
+  unfold V4_ERR_LEN, ICMP_MIN_COMMON_HEADER_SIZE, ICMP_V4_MIN_MATCHING_DATA_SIZE, CHECKSUM_SIZE in *.
+  destruct (1 + lenN (code :: c1 :: c2 :: u1 :: u2 :: u3 :: u4 :: quoted) <? 8 + 28) eqn:B;
+    [rewrite !lenN_cons in B; lia|].
+  cbn [get_u8 bind]. unfold split_off, advance.
+  destruct (lenN (c1 :: c2 :: u1 :: u2 :: u3 :: u4 :: quoted) <? 2) eqn:B2; [rewrite !lenN_cons in B2; lia|].
+  cbn [bind]. change (dropN 2 (c1 :: c2 :: u1 :: u2 :: u3 :: u4 :: quoted)) with (u1 :: u2 :: u3 :: u4 :: quoted).
+  unfold parse_data_after, v4_unreachable_code_ok. rewrite Hflag. cbn [any_code]. unfold split_off, advance.
+  destruct (lenN (u1 :: u2 :: u3 :: u4 :: quoted) <? 4) eqn:B3; [rewrite !lenN_cons in B3; lia|].
+  cbn [bind fst snd]. reflexivity.
+Qed.
+
+Lemma v6_unreachable_any_code_proof :
+  V6_UNREACHABLE_ANY_CODE = true ->
+  forall code c1 c2 u1 u2 u3 u4 quoted,
+    MIN_IPV6_HEADER_SIZE <= lenN quoted ->
+    v6_deserialize (V6_DESTINATION_UNREACHABLE :: code :: c1 :: c2 :: u1 :: u2 :: u3 :: u4 :: quoted)
+    = Ok {| m_v6 := true; m_type := V6_DESTINATION_UNREACHABLE; m_code := code; m_body := BData quoted |}.
+Proof.
+  intros Hflag code c1 c2 u1 u2 u3 u4 quoted Hlen. unfold v6_deserialize.
+  rewrite N.eqb_refl. unfold deserialize_packet.
+  unfold V6_ERR_LEN, ICMP_MIN_COMMON_HEADER_SIZE, MIN_IPV6_HEADER_SIZE, CHECKSUM_SIZE in *.
+  destruct (1 + lenN (code :: c1 :: c2 :: u1 :: u2 :: u3 :: u4 :: quoted) <? 8 + 40) eqn:B;
+    [rewrite !lenN_cons in B; lia|].
+  cbn [get_u8 bind]. unfold split_off, advance.
+  destruct (lenN (c1 :: c2 :: u1 :: u2 :: u3 :: u4 :: quoted) <? 2) eqn:B2; [rewrite !lenN_cons in B2; lia|].
+  cbn [bind]. change (dropN 2 (c1 :: c2 :: u1 :: u2 :: u3 :: u4 :: quoted)) with (u1 :: u2 :: u3 :: u4 :: quoted).
+  unfold parse_data_after, v6_unreachable_code_ok. rewrite Hflag. cbn [any_code]. unfold split_off, advance.
+  destruct (lenN (u1 :: u2 :: u3 :: u4 :: quoted) <? 4) eqn:B3; [rewrite !lenN_cons in B3; lia|].
+  cbn [bind fst snd]. reflexivity.
+Qed.
+
+(* what a router quotes (RFC 792: the IP header, here without options, and at least the first 8 octets of the
+   datagram) is read back as the request: identifier, sequence number and as much of the data as was quoted *)
+Lemma quoted_echo_v4_proof a b k1 k2 id seq data :
+  lenN a = 8 -> lenN b = 10 -> id < 65536 -> seq < 65536 ->
+  quoted_echo false (69 :: a ++ [IPPROTO_ICMP] ++ b ++ V4_ECHO :: 0 :: k1 :: k2 :: to_be 2 id ++ to_be 2 seq ++ data)
+  = Ok (Some (id, seq, data)).
+Proof.
+  intros Ha Hb Hid Hseq. unfold quoted_echo, skip_ipv4_header, MIN_IPV4_HEADER_SIZE.
+  set (rest := V4_ECHO :: 0 :: k1 :: k2 :: to_be 2 id ++ to_be 2 seq ++ data).
+  assert (Hrest : 8 <= lenN rest) by (unfold rest; rewrite !lenN_cons, !lenN_app, !lenN_to_be; lia).
+  destruct (lenN (69 :: a ++ [IPPROTO_ICMP] ++ b ++ rest) <? 20) eqn:B;
+    [rewrite lenN_cons, !lenN_app, lenN_cons, lenN_nil in B; lia|].
+  cbn [get_u8 bind].
+  replace ((N.land 69 15 * 4) mod 256) with 20 by reflexivity.
+  replace (20 <? 20) with false by reflexivity. cbn [orb].
+  destruct (lenN (a ++ [IPPROTO_ICMP] ++ b ++ rest) + 1 <? 20) eqn:B2;
+    [rewrite !lenN_app, lenN_cons, lenN_nil in B2; lia|].
+  unfold advance.
+  destruct (lenN (a ++ [IPPROTO_ICMP] ++ b ++ rest) <? 8) eqn:B3; [rewrite !lenN_app in B3; lia|].
+  cbn [bind]. assert (Hda : forall X : list N, dropN 8 (a ++ X) = X) by (intros; rewrite <- Ha; apply dropN_exact).
+  rewrite Hda. change ([IPPROTO_ICMP] ++ b ++ rest) with (IPPROTO_ICMP :: b ++ rest). cbn [get_u8 bind].
+  replace (10 + (20 - 20)) with 10 by reflexivity.
+  destruct (lenN (b ++ rest) <? 10) eqn:B4; [rewrite lenN_app in B4; lia|].
+  cbn [bind]. assert (Hdb : forall X : list N, dropN 10 (b ++ X) = X) by (intros; rewrite <- Hb; apply dropN_exact).
+  rewrite Hdb.
+  replace (negb (IPPROTO_ICMP =? IPPROTO_ICMP)) with false by reflexivity.
+  unfold rest. replace (negb (V4_ECHO =? V4_ECHO)) with false by reflexivity.
+  unfold deserialize_packet, ECHO_HEADER_SIZE, CHECKSUM_SIZE.
+  destruct (1 + lenN (0 :: k1 :: k2 :: to_be 2 id ++ to_be 2 seq ++ data) <? 8) eqn:B5;
+    [rewrite !lenN_cons, !lenN_app, !lenN_to_be in B5; lia|].
+  cbn [get_u8 bind]. unfold split_off, advance.
+  destruct (lenN (k1 :: k2 :: to_be 2 id ++ to_be 2 seq ++ data) <? 2) eqn:B6; [rewrite !lenN_cons in B6; lia|].
+  cbn [bind]. change (dropN 2 (k1 :: k2 :: to_be 2 id ++ to_be 2 seq ++ data)) with (to_be 2 id ++ to_be 2 seq ++ data).
+  assert (Ht : forall v (X : list N), takeN 2 (to_be 2 v ++ X) = to_be 2 v)
+    by (intros v X; pose proof (takeN_exact (to_be 2 v) X) as E; rewrite lenN_to_be in E; exact E).
+  assert (Hd : forall v (X : list N), dropN 2 (to_be 2 v ++ X) = X)
+    by (intros v X; pose proof (dropN_exact (to_be 2 v) X) as E; rewrite lenN_to_be in E; exact E).
+  unfold parse_echo, get_be.
+  destruct (lenN (to_be 2 id ++ to_be 2 seq ++ data) <? 2) eqn:B7; [rewrite lenN_app, lenN_to_be in B7; lia|].
+  cbn [bind]. rewrite Ht, Hd.
+  destruct (lenN (to_be 2 seq ++ data) <? 2) eqn:B8; [rewrite lenN_app, lenN_to_be in B8; lia|].
+  cbn [bind]. rewrite Ht, Hd.
+  rewrite !be_to_be_small by (cbn; lia). reflexivity.
+Qed.
+
+Lemma v4_unreachable_reported_proof :
+  V4_UNREACHABLE_ANY_CODE = true ->
+  forall code c1 c2 u1 u2 u3 u4 a b k1 k2 id seq data peer,
+    lenN a = 8 -> lenN b = 10 -> id < 65536 -> seq < 65536 ->
+    exists m,
+      v4_deserialize (V4_DESTINATION_UNREACHABLE :: code :: c1 :: c2 :: u1 :: u2 :: u3 :: u4 ::
+                      69 :: a ++ [IPPROTO_ICMP] ++ b ++ V4_ECHO :: 0 :: k1 :: k2 :: to_be 2 id ++ to_be 2 seq ++ data)
+      = Ok m
+      /\ responded_echo_request m = Ok (Some (id, seq, data))
+      /\ icmp_encode peer m = Ok (Some (reply_record id peer V4_DESTINATION_UNREACHABLE code seq)).
+Proof.
+  intros Hflag code c1 c2 u1 u2 u3 u4 a b k1 k2 id seq data peer Ha Hb Hid Hseq.
+  eexists. split; [|split].
+  - apply v4_unreachable_any_code_proof; [exact Hflag|].
+    unfold ICMP_V4_MIN_MATCHING_DATA_SIZE. rewrite lenN_cons, !lenN_app, !lenN_cons, !lenN_app, !lenN_to_be, lenN_nil. lia.
+  - unfold responded_echo_request. cbn [m_body m_v6]. apply quoted_echo_v4_proof; assumption.
+  - apply reply_layout_proof with (d := data).
+    unfold responded_echo_request. cbn [m_body m_v6]. apply quoted_echo_v4_proof; assumption.
+Qed.
